@@ -62,6 +62,9 @@ structure EnvState where
   iq0 : Bool
   ix : Bool
   minx : Option (List Nat)   -- `min_x_list` (none = nullptr)
+  /-- `min_x_default`: `min_x_list` was built by `solve_x()` for all parameters of the CURRENT system
+      (repo 65eea33; `reset` drops such a list) -/
+  minxDef : Bool := false
   mtf : MTF Int Nat
   /-- `tmpres.dim()`: work vector of `q_bb`'s FULL_VECTOR branch; re-dimensioned only under `init_q_bb`,
       zeroed and refilled on every use (its content never survives into an answer) -/
@@ -96,12 +99,19 @@ def init (m : Option (List Nat)) : EnvState :=
              haveX0 := false, haveResid := false, haveQ0 := false, haveX := false } 0
 
 /-- `reset(data)` (the SAME or ANOTHER input: the function does not look at the old one):
+    a list that `solve_x` materialised for all parameters of the previous system is dropped
+    (`if (min_x_default) { delete[] min_x_list; min_x_list = nullptr; }`, repo 65eea33 — before that fix it
+    survived, finding C04-env-allist-survives-reset); a list given through `min_x(n, list)` survives;
     `indbuf.erase()`, buffers emptied (`qxxbuf[i].reset()`), `set_stage(stage_init)`;
-    `min_x_list` survives — also a list materialised by `solve_x` for the OLD number of parameters
-    (finding C04-env-allist-survives-reset); `tmpres` survives with its dimension (`init_q_bb` is set) -/
+    `tmpres` survives with its dimension (`init_q_bb` is set) -/
 def reset (s : EnvState) : EnvState :=
-  setStage { s with mtf := s.mtf.erase, content := fun _ => .empty,
+  setStage { s with minx := if s.minxDef then none else s.minx, minxDef := false,
+                    mtf := s.mtf.erase, content := fun _ => .empty,
                     haveX0 := false, haveResid := false, haveQ0 := false, haveX := false, xreg := none } 0
+
+/-- the configuration as the caller sees it: `none` = all parameters (constructor default or `min_x()`),
+    `some l` = the list given to `min_x(n, l)`; a list materialised by `solve_x` stands for `none` -/
+def cfg (s : EnvState) : Option (List Nat) := if s.minxDef then none else s.minx
 
 def solveOrdering (s : EnvState) : EnvState :=
   if s.stage ≥ 1 then s else setStage s 1
@@ -125,7 +135,7 @@ def ensureQ0 (s : EnvState) : EnvState := if s.stage < 3 then solveQ0 s else s
 
 /-- `if (min_x_list == nullptr)` materialise the list of all parameters -/
 def mat (inp : EnvInput) (s : EnvState) : EnvState :=
-  if s.minx.isNone then { s with minx := some (allList inp.n) } else s
+  if s.minx.isNone then { s with minx := some (allList inp.n), minxDef := true } else s
 
 /-- the state `solve_x` starts its real work from: list materialised, x0 available -/
 def preX (inp : EnvInput) (s : EnvState) : EnvState :=
@@ -202,8 +212,8 @@ def step (inp : EnvInput) (s : EnvState) : Op → EnvState × Out
       -- FULL_VECTOR: `if (init_q_bb) { tmpres.reset(parameters); init_q_bb = false; }  tmpres.set_zero(); …`
       let s := if s.iqbb then { s with tmpresDim := inp.n, iqbb := false } else s
       if s.tmpresDim != inp.n then (s, .stale "tmpres") else (s, .qbbFull i j)
-  | .minxAll => ({ s with minx := none, mtf := s.mtf.erase, ix := true }, .ok)
-  | .minx l => ({ s with minx := some l, mtf := s.mtf.erase, ix := true }, .ok)
+  | .minxAll => ({ s with minx := none, minxDef := false, mtf := s.mtf.erase, ix := true }, .ok)
+  | .minx l => ({ s with minx := some l, minxDef := false, mtf := s.mtf.erase, ix := true }, .ok)
   | .reset => (reset s, .ok)
 
 def run (inp : EnvInput) (s : EnvState) : List Op → EnvState
